@@ -110,6 +110,17 @@ theorem allocRun_balanced {st st' : AState} {ev : List SEvent} (h : allocRun st 
             simpa [allocSizes, deallocSizes, AState.pending] using this
           · simp at hs
 
+theorem allocRun_of_prefix {st st' : AState} {ev p : List SEvent} (h : allocRun st ev = some st')
+    (hp : p <+: ev) : ∃ st1, allocRun st p = some st1 := by
+  obtain ⟨t, rfl⟩ := hp
+  rw [allocRun_append] at h
+  cases hq : allocRun st p with
+  | none => simp [hq] at h
+  | some st1 => exact ⟨st1, rfl⟩
+
+theorem AState.pending_length_le (st : AState) : st.pending.length ≤ 2 := by
+  cases st <;> simp [AState.pending]
+
 /-! ### Live chunk handles -/
 
 /-- Follow the number of live chunk handles; fail when it would exceed `B` or drop below 0. -/
